@@ -319,6 +319,19 @@ func (f *File) Analyze(m *Meta) *Accounting {
 	if int(m.PageSize) != f.PageSize {
 		a.anom("meta page size %d != detected %d", m.PageSize, f.PageSize)
 	}
+	// the two meta pages: page header = (id of the slot, meta flag)
+	for slot := range f.Metas {
+		mm := f.Metas[slot]
+		if !mm.Valid {
+			continue // an invalid slot (torn write) is legal at rest; validity is judged elsewhere
+		}
+		if mm.PageID != uint64(slot) {
+			a.anom("meta page in slot %d carries page id %d in its header", slot, mm.PageID)
+		}
+		if mm.PageFlags != FlagMeta {
+			a.anom("meta page in slot %d has page flags %#x, want %#x", slot, mm.PageFlags, FlagMeta)
+		}
+	}
 	// freelist
 	if m.Freelist != NoFreelist {
 		a.HasFreelist = true
